@@ -58,7 +58,7 @@ class CMixin:
                     o2 = obj.clone(kind=kind, length=n)
                     o2.arr = fresh('heap_' + v.oid, z3.ArraySort(IntS, kind_sort(kind)))
                     if self.mode == 'run' and is_cint(n):
-                        o2.items = [('uninit', 'heap')] * max(0, n)
+                        o2.items = [Uninit('heap')] * max(0, n)
                     st.heap[v.oid] = o2
             return v
         if t in FLOAT_TYPES:
@@ -120,14 +120,14 @@ class CMixin:
             if t in self.program.structs:
                 st.vars[node.name] = self.struct_value(t, None, st, node)
             else:
-                st.vars[node.name] = ('uninit', node.name)
+                st.vars[node.name] = Uninit(node.name)
 
     def struct_value(self, t, init, st, node):
         """A struct local is a heap record accessed by value; `&x` yields a pointer to it."""
         fields = {}
         sdef = self.program.structs[t]
         for fname, ftype in sdef:
-            fields[fname] = ('uninit', fname)
+            fields[fname] = Uninit(fname)
         if init is not None:
             names = init.fields or [f for f, _ in sdef]
             for fname, e in zip(names, init.values):
@@ -138,8 +138,8 @@ class CMixin:
 
     def ev_Name(self, node, st):
         v = ExprFallback.ev_Name(self, node, st)
-        if isinstance(v, tuple) and len(v) == 2 and v[0] == 'uninit' and not self.spec_mode:
-            self.oblige('uninit', False, st, node, 'read of uninitialised variable %s' % v[1])
+        if isinstance(v, Uninit) and not self.spec_mode:
+            self.oblige('uninit', False, st, node, 'read of uninitialised variable %s' % v.name)
             raise PathEnd()
         return v
 
